@@ -318,6 +318,10 @@ func (rm *ResponseManager) taskDataForKey(requestID graphsync.RequestID) queryex
 			// take the lowest nonzero budget (global or per-request)
 			maxLinks = response.maxLinks
 		}
+		if maxLinks > math.MaxInt64 {
+			// the traversal counts links in an int64: a larger limit can never be reached
+			maxLinks = math.MaxInt64
+		}
 		if maxLinks > 0 {
 			budget = &traversal.Budget{
 				NodeBudget: math.MaxInt64,
